@@ -370,7 +370,7 @@ fn estimated_qlpc(
     config: &config::SubFrameCoding,
     signal: &[i32],
     bits_per_sample: u8,
-) -> SubFrame {
+) -> Option<SubFrame> {
     let lpc_order = config.qlpc.lpc_order;
     let lpc_coefs = perform_qlpc(config, signal);
     let qlpc = lpc::quantize_parameters(&lpc_coefs[0..lpc_order], config.qlpc.quant_precision);
@@ -382,17 +382,20 @@ fn estimated_qlpc(
     });
     let residual = reuse!(QLPC_ERROR_BUFFER, |errors: &mut Vec<i32>| {
         errors.resize(signal.len(), 0i32);
-        lpc::compute_error(&qlpc, signal, errors);
-        encode_residual(&config.prc, errors, qlpc.order())
-    });
-    Lpc::from_parts(
-        heapless::Vec::from_slice(&signal[0..qlpc.order()])
-            .expect("LPC order exceeded the maximum"),
-        qlpc,
-        residual,
-        bits_per_sample,
+        // the candidate is dropped if an error value is not a FLAC residual.
+        lpc::compute_error(&qlpc, signal, errors)
+            .then(|| encode_residual(&config.prc, errors, qlpc.order()))
+    })?;
+    Some(
+        Lpc::from_parts(
+            heapless::Vec::from_slice(&signal[0..qlpc.order()])
+                .expect("LPC order exceeded the maximum"),
+            qlpc,
+            residual,
+            bits_per_sample,
+        )
+        .into(),
     )
-    .into()
 }
 
 /// Finds the best method to encode the given samples, and returns `SubFrame`.
@@ -423,8 +426,8 @@ fn encode_subframe(
             std::cmp::min(baseline_bits, x.count_bits())
         });
         let est_lpc = if !too_short && config.use_lpc {
-            let candidate = estimated_qlpc(config, samples, bits_per_sample);
-            (candidate.count_bits() < baseline_bits).then_some(candidate)
+            estimated_qlpc(config, samples, bits_per_sample)
+                .filter(|candidate| candidate.count_bits() < baseline_bits)
         } else {
             None
         };
